@@ -122,6 +122,10 @@ def ghost(G, n_inputs, has_obs=None, clim=None, obs_range=False, other=False, pr
                 gh.raw[(i, kk)] = vv
                 gh.raw0[(i, kk)] = vv.copy() if vv is not None else None
         si = StubInput("in%d" % i, obs, fcst, oth, pr)
+        if prob and i >= 1:
+            # every input lists its stored thresholds / quantile levels in its own order (C02: matched by value, not by position)
+            si.thresholds = _np.array(STORED_THRESHOLDS[::-1])
+            si.quantiles = _np.array(STORED_QUANTILES[::-1])
         # the input's own coordinate vectors (any order, unless -T needs them ascending)
         si.leadtimes = G.array("leadtimes%d" % i, (L,), kinds=(FIN,), grid=[0.0, 1.0, 2.0, 3.0, 6.0])
         si.times = G.array("times%d" % i, (T,), kinds=(FIN,), grid=[0.0, 3600.0, 7200.0, 21600.0])
@@ -285,7 +289,8 @@ def gathered(S, gh, i, f, c):
     if f.startswith("thr"):
         thr = float(f[3:])
         if thr in STORED_THRESHOLDS and not gh.get("agg"):
-            return S.at(gh.raw0[(k, "cdf")], own + (STORED_THRESHOLDS.index(thr),))
+            own_list = STORED_THRESHOLDS if k == 0 else STORED_THRESHOLDS[::-1]       # input k's own list (see ghost())
+            return S.at(gh.raw0[(k, "cdf")], own + (own_list.index(thr),))
         mem = _members(S, gh.pre(S, k, "ens"), own) if gh.get("agg") else _members(S, gh.raw0[(k, "ens")], own)
         nvalid = S.count_where(mem, lambda e: S.not_(S.isnan(S.at(mem, e))))
         nbelow = S.sum_where(mem, lambda e: S.ite(S.and_(S.not_(S.isnan(S.at(mem, e))), S.at(mem, e) <= thr), 1.0, 0.0))
@@ -293,7 +298,8 @@ def gathered(S, gh, i, f, c):
     if f.startswith("q"):
         q = float(f[1:])
         if q in STORED_QUANTILES and not gh.get("agg"):
-            return S.at(gh.raw0[(k, "x")], own + (STORED_QUANTILES.index(q),))
+            own_list = STORED_QUANTILES if k == 0 else STORED_QUANTILES[::-1]
+            return S.at(gh.raw0[(k, "x")], own + (own_list.index(q),))
         mem = _members(S, gh.pre(S, k, "ens"), own) if gh.get("agg") else _members(S, gh.raw0[(k, "ens")], own)
         return S.fn("quantile", mem, (q, "normal_unbiased"))
     if f.startswith("ens"):
@@ -503,7 +509,7 @@ _reg_request("N=1+clim,input=0,[aux],axis=time,clim=subtract", ("C14",), 1, 0, (
 _reg_request("N=1+clim,input=0,[obs,fcst],axis=time,clim=subtract,obsrange", ("C14", "C03"), 1, 0, ("obs", "fcst"), "time", clim="subtract", obs_range=True)
 
 
-_PROB = ("C08", "C01", "C04", "C07")
+_PROB = ("C08", "C01", "C04", "C07", "C02")
 _reg_request("N=1,input=0,[obs,thr0.5],axis=time(stored-cdf-column)", _PROB, 1, 0, ("obs", "thr0.5"), "time")
 _reg_request("N=2,input=1,[obs,thr0.5,thr2],axis=no(stored-cdf-columns)", _PROB, 2, 1, ("obs", "thr0.5", "thr2"), "no")
 _reg_request("N=1,input=0,[obs,thr1],axis=time(probability-from-ensemble)", _PROB, 1, 0, ("obs", "thr1"), "time")
@@ -1075,7 +1081,7 @@ def _data_init(n_inputs):
 
 for _n in (1, 2):
     s, c, p, r = _data_init(_n)
-    bounded_obligation("verif.data.Data.__init__#BOUNDED:N=%d" % _n, ("C03", "C02", "C11"), s, c, p, raises=r,
+    bounded_obligation("verif.data.Data.__init__#BOUNDED:N=%d" % _n, ("C03", "C02", "C11", "C12"), s, c, p, raises=r,
                        bound="%d input(s); times/leadtimes/location ids of length 2..3 from small grids; every subset of the options -t -d -tod -o -l -lx "
                              "-latrange -lonrange -elevrange with values from small grids incl. end points equal to a station's coordinate and values "
                              "matching nothing; seeded random sample of the product (count in evidence)" % _n,
